@@ -46,14 +46,14 @@ class Logitech_Unifying_Hdr(Packet):
 
     def post_build(self,p,pay):
         """Re-compute checksum if needed."""
-        #if self.checksum is None:
+        # The checksum is a trailer field: scapy has already appended its current
+        # value (one byte) to the payload, replace it with the computed checksum.
+        body = p[:2] + pay[:-1]
         cksum = 0xFF
-        for i in (p[:2] + pay):
+        for i in body:
             cksum = (cksum - i) & 0xFF
         cksum = (cksum + 1) & 0xFF
-        #else:
-        #    cksum = self.checksum
-        return p[:2] + pay + pack('B', cksum)
+        return body + pack('B', cksum)
 
 
 class Logitech_Wake_Up_Payload(Packet):
